@@ -12,6 +12,74 @@ func init() {
 	vxRegister("VX_C03_AfterDeadlineBoundWrite", VX_C03_AfterDeadlineBoundWrite)
 	vxRegister("VX_C08_CloseDuringLaunch", VX_C08_CloseDuringLaunch)
 	vxRegister("VX_C10_RewrittenName", VX_C10_RewrittenName)
+	vxRegister("VX_C15_StatusThroughPreSession", VX_C15_StatusThroughPreSession)
+}
+
+// vxPreStatus is an accept hook that reports a status to the connecting side
+// with PreSend / PreReply (what the auth checker does with its verdict) and
+// then recycles the message it received.
+type vxPreStatus struct {
+	op   int
+	give *Status
+	ran  bool
+}
+
+func (p *vxPreStatus) Name() string { return "vxprestatus" }
+func (p *vxPreStatus) PostAccept(s PreSession) *Status {
+	p.ran = true
+	switch p.op {
+	case 0:
+		s.PreSend(TypePush, "/verdict", nil, p.give)
+	case 1:
+		in := GetMessage()
+		in.SetSeq(7)
+		in.SetServiceMethod("/pre")
+		s.PreReply(in, nil, p.give)
+		PutMessage(in)
+	case 2:
+		in := s.PreReceive(func(Header) interface{} { return new([]byte) })
+		PutMessage(in) // "the message should be released by socket.PutMessage when no longer used"
+	}
+	return nil
+}
+
+// VX_C15_StatusThroughPreSession: a status value that is shared between calls
+// (a framework sentinel obtained from a failed operation, or a package-level
+// status of the application) is handed to the pre-session API from an accept
+// hook (PreSend, PreReply; PreReceive + PutMessage). Afterwards the value is
+// what it was: same code, message, cause - and the framework reports its own
+// failures as before. args: op(0 PreSend, 1 PreReply, 2 PreReceive+PutMessage), which(0 application status, 1 the connection-closed status a failed push returned)
+func VX_C15_StatusThroughPreSession(args []int) {
+	snaps := vxSnapSentinels()
+	var shared *Status
+	code := int32(0)
+	if args[1] == 0 {
+		code = 4000 + vxInt32("code")%1000
+		vxAssume(code > 0)
+		shared = NewStatus(code, "application verdict", "because")
+	} else {
+		dead := newVxConn("srv:1", "gone:9")
+		ds, st := vxNewPeer().ServeConn(dead)
+		vxAssume(st.OK())
+		ds.Close()
+		shared = ds.Push("/p", []byte("z"))
+		code = shared.Code()
+		vxAssert(code == CodeConnClosed, "a push on a closed session reports 102")
+	}
+	msg0, cause0 := shared.Msg(), vxCauseStr(shared)
+	conn := newVxConn("srv:1", "cli:2")
+	if args[0] == 2 {
+		conn.feed(vxFrame(TypePush, 1, "/hello", []byte("x")))
+	}
+	hook := &vxPreStatus{op: args[0], give: shared}
+	s, st := vxNewPeer(hook).ServeConn(conn)
+	vxAssume(st.OK() && hook.ran)
+	vxAssert(shared.Code() == code && shared.Msg() == msg0 && vxCauseStr(shared) == cause0, "a status handed to the pre-session API (and the message carrying it recycled) is unchanged afterwards")
+	vxCheckSentinels(snaps)
+	s.Close()
+	ps := s.Push("/p", []byte("z"))
+	vxAssert(ps.Code() == CodeConnClosed && ps.Msg() == "Connection Closed", "a push on a closed session still reports 102 Connection Closed")
+	vxCover("c15.pre-session-status")
 }
 
 // vxRewrite is a header plugin that renames requests (what the shipped
